@@ -24,7 +24,7 @@ CLAIMED = {
          "Value equality after encode/decode through encoding/json, cbor, jwt and go-cose is not decided (runtime values); see not-decided list in DESIGN.",
          "DESIGN.md 5 C08"),
  "C09": ("site engine over the typed AST + product graphs: nil-after-error and optional-field dereference dominance, bounds rules for every index/slice site (with caller contexts), assertion dominance, loop-progress cycles, panic/goroutine/IO/context lints",
-         "NOT crash-freedom of the dependencies' decoders. Decided for the repository's own code: every value returned with an error is dereferenced only after the error (or value) test; optional parsed fields tested before use; every index/slice/single-value-assertion site discharged by a rule; caller-supplied interface keys restricted before hashing; explicit panics only in init / nil-argument / re-raise; every goroutine recovers and forwards, spawner re-raises; bodies read through LimitReader with constant bound; requests only with context derived from the caller; every non-range loop progresses on each cycle. A pem.Decode result is tested for nil before use; every iteration of the OCSP responder loop that goes on stored the slot the aggregator later dereferences.",
+         "NOT crash-freedom of the dependencies' decoders. Decided for the repository's own code: every value returned with an error is dereferenced only after the error (or value) test; optional parsed fields tested before use; every index/slice/single-value-assertion site discharged by a rule; caller-supplied interface keys restricted before hashing; explicit panics only in init / nil-argument / re-raise; every goroutine recovers and forwards, spawner re-raises; bodies read through LimitReader with constant bound; requests only with context derived from the caller; every non-range loop progresses on each cycle. A pem.Decode result is tested for nil before use; every iteration of the OCSP responder loop that goes on stored the slot the aggregator later dereferences. A function of this module whose pointer result is dereferenced on the strength of the error test returns neither nil nor an untested optional field together with a nil error; every io.LimitReader bound is a positive constant (at the call, or at every call of the function that takes it as a parameter); the count handed to a Grow call is tested non-negative.",
          "Crashes, stack exhaustion or quadratic behaviour inside third-party decoders, nil elements inside caller-built slices and slow-drip bodies are not decided.",
          "DESIGN.md 5 C09"),
  "C13": ("per-iteration / only-after-exhaustion loop rules on the attribute readers and writers, reserved-key table extraction, sibling cross-check",
@@ -76,11 +76,11 @@ CLAIMED = {
          "Structure of in-repo logic only; crypto/x509 signature checks trusted.",
          "DESIGN.md 5 C14"),
  "C17": ("fork/join structure analysis on the spliced CFG (Add/go/Done/Wait pairing, recover-forward classification, channel capacity) + ownership (write-set) scan",
-         "The classic static argument for schedule independence: per go site, Add(1) before go and always followed by it, Done deferred first, Wait on every path to every exit after a spawn, nothing spawned after Wait; each goroutine recovers and forwards panics on a channel with one slot per goroutine, polled and re-raised after the join, closed only by a deferred call of the spawner; goroutines store only results[i] for their own range key and objects they created; no package-level or receiver state is written in the revocation packages; all go sites of the module are covered and agree. The launch loop is left only by exhaustion (which slots are filled never depends on timing); goroutines call no captured function value and read no variable declared outside the launch loop and assigned in it; the fetcher never writes into a bundle it got from the cache; every HTTP response body is closed.",
+         "The classic static argument for schedule independence: per go site, Add(1) before go and always followed by it, Done deferred first, Wait on every path to every exit after a spawn, nothing spawned after Wait; each goroutine recovers and forwards panics on a channel with one slot per goroutine, polled and re-raised after the join, closed only by a deferred call of the spawner; goroutines store only results[i] for their own range key and objects they created; no package-level or receiver state is written in the revocation packages; all go sites of the module are covered and agree. The launch loop is left only by exhaustion (which slots are filled never depends on timing); goroutines call no captured function value and read no variable declared outside the launch loop and assigned in it; the fetcher never writes into a bundle it got from the cache; every HTTP response body is closed. Every append in the revocation packages grows a slice the appending function allocated (or a field of a per-check verdict object), never a slice read from a shared certificate or CRL bundle; stores through a local that holds the receiver pointer count as receiver stores.",
          "Happens-before is taken from sync.WaitGroup semantics; races inside net/http and caller-supplied components, and run-time goroutine counts, are not decided (nothing is executed).",
          "DESIGN.md 5 C17"),
  "C18": ("guard analysis of Fetch (modular: download helper and distribution-point parser opaque) + sentinel privacy (who-may-reference) + statelessness scan",
-         "Single-step rules on every path: cached bundle only if cache present, Get ok, base and delta within next-update; miss is never an error, other read errors unless discarded; fresh bundle only after a successful base download, written back under the same URL with the same bundle, write errors unless discarded; delta nil only if not advertised, otherwise first answering advertised location, exhaustion returns the last error; download helper http-only/200/capped/parsed. Statelessness (no receiver or package state written) reduces the history clause to these single-step rules; histories are not explored. The freshest-CRL parser reads the whole extension: no break from its outer loop, a failed DER read is an error, every name of a distribution point is examined; a bundle obtained from the cache is never modified.",
+         "Single-step rules on every path: cached bundle only if cache present, Get ok, base and delta within next-update; miss is never an error, other read errors unless discarded; fresh bundle only after a successful base download, written back under the same URL with the same bundle, write errors unless discarded; delta nil only if not advertised, otherwise first answering advertised location, exhaustion returns the last error; download helper http-only/200/capped/parsed. Statelessness (no receiver or package state written) reduces the history clause to these single-step rules; histories are not explored. The freshest-CRL parser reads the whole extension: no break from its outer loop, a failed DER read is an error, every name of a distribution point is examined; a bundle obtained from the cache is never modified. Once a delta location answered, Fetch does not fail before the bundle is written to the cache (an earlier location's error does not outlive a later success).",
          "The caller's Cache implementation and clocks are trusted to their contract.",
          "DESIGN.md 5 C18"),
  "C19": ("guard analysis of a small closed function: exact condition set, loop nesting/ordering rules, returned-value terms",
